@@ -96,51 +96,72 @@ impl Rep {
 /// *stuck* (inconclusive — wall-clock never decides a violation) and exits
 /// with code 3 so that the driver can tell it from a crash.
 pub mod watchdog {
+    use std::sync::atomic::{AtomicBool, Ordering};
     use std::sync::{Mutex, OnceLock};
     use std::time::Instant;
-    static CUR: OnceLock<Mutex<(String, Instant, Option<String>)>> = OnceLock::new();
-    /// `total_s`: generous bound on the whole worker (several times its own time budget); a worker that is still
-    /// running then is recorded as stuck (inconclusive) as well - its loops only look at the budget between grammars.
+    static CUR: OnceLock<Mutex<(String, Option<String>)>> = OnceLock::new();
+    /// set()/touch() only raise this flag; the watchdog thread does the clock reading.
+    static PROGRESS: AtomicBool = AtomicBool::new(false);
+    /// CPU seconds (user + system) this process has consumed, from /proc/self/stat (USER_HZ = 100 on Linux).
+    fn cpu_s() -> Option<f64> {
+        let s = std::fs::read_to_string("/proc/self/stat").ok()?;
+        let rest = &s[s.rfind(')')? + 1..];
+        let f: Vec<&str> = rest.split_whitespace().collect();
+        Some((f.get(11)?.parse::<f64>().ok()? + f.get(12)?.parse::<f64>().ok()?) / 100.0)
+    }
+    /// A case is *stuck* (inconclusive, never a violation) when the process has burnt more than `limit_s` seconds of
+    /// CPU since the last progress mark: a loop that does not end burns CPU, whereas a frozen or overloaded machine,
+    /// or a stalled disk, does not - the wall clock fired on all 16 workers at once while the sandbox was being
+    /// snapshotted (DESIGN.md section 5). Wall-clock seconds are the fallback where /proc is not readable.
+    /// `total_s`: generous wall-clock bound on the whole worker (several times its own time budget); a worker that is
+    /// still running then is recorded as stuck as well - its loops only look at the budget between grammars.
     pub fn start(out_path: Option<String>, limit_s: f64, total_s: f64) {
-        CUR.get_or_init(|| Mutex::new((String::new(), Instant::now(), out_path)));
+        CUR.get_or_init(|| Mutex::new((String::new(), out_path)));
         let t0 = Instant::now();
-        std::thread::spawn(move || loop {
-            std::thread::sleep(std::time::Duration::from_millis(500));
-            let g = CUR.get().unwrap().lock().unwrap();
-            if t0.elapsed().as_secs_f64() > total_s {
-                if let Some(p) = &g.2 {
-                    use std::io::Write;
-                    if let Ok(mut f) = std::fs::OpenOptions::new().append(true).open(p) {
-                        let _ = writeln!(f, "{}", serde_json::json!({"k": "stuck", "limit_s": total_s, "case": {"whole_worker": true, "last_case": serde_json::from_str::<serde_json::Value>(&g.0).unwrap_or(serde_json::Value::Null)}}));
+        std::thread::spawn(move || {
+            let clock = move || cpu_s().unwrap_or_else(|| t0.elapsed().as_secs_f64());
+            let mut base = clock();
+            let mut base_wall = Instant::now();
+            loop {
+                std::thread::sleep(std::time::Duration::from_millis(500));
+                let now = clock();
+                let g = CUR.get().unwrap().lock().unwrap();
+                if t0.elapsed().as_secs_f64() > total_s {
+                    if let Some(p) = &g.1 {
+                        use std::io::Write;
+                        if let Ok(mut f) = std::fs::OpenOptions::new().append(true).open(p) {
+                            let _ = writeln!(f, "{}", serde_json::json!({"k": "stuck", "limit_s": total_s, "case": {"whole_worker": true, "last_case": serde_json::from_str::<serde_json::Value>(&g.0).unwrap_or(serde_json::Value::Null)}}));
+                        }
                     }
+                    eprintln!("watchdog: worker still running after {total_s}s");
+                    std::process::exit(3);
                 }
-                eprintln!("watchdog: worker still running after {total_s}s");
-                std::process::exit(3);
-            }
-            if !g.0.is_empty() && g.1.elapsed().as_secs_f64() > limit_s {
-                if let Some(p) = &g.2 {
-                    use std::io::Write;
-                    if let Ok(mut f) = std::fs::OpenOptions::new().append(true).open(p) {
-                        let _ = writeln!(f, "{}", serde_json::json!({"k": "stuck", "limit_s": limit_s, "case": serde_json::from_str::<serde_json::Value>(&g.0).unwrap_or(serde_json::Value::Null)}));
+                // (a worker that waits for a child process burns no CPU: ten times the limit in wall-clock seconds)
+                if PROGRESS.swap(false, Ordering::Relaxed) {
+                    base = now;
+                    base_wall = Instant::now();
+                } else if !g.0.is_empty() && (now - base > limit_s || base_wall.elapsed().as_secs_f64() > 10.0 * limit_s) {
+                    if let Some(p) = &g.1 {
+                        use std::io::Write;
+                        if let Ok(mut f) = std::fs::OpenOptions::new().append(true).open(p) {
+                            let _ = writeln!(f, "{}", serde_json::json!({"k": "stuck", "limit_s": limit_s, "case": serde_json::from_str::<serde_json::Value>(&g.0).unwrap_or(serde_json::Value::Null)}));
+                        }
                     }
+                    eprintln!("watchdog: case stuck for more than {limit_s}s of CPU: {}", g.0);
+                    std::process::exit(3);
                 }
-                eprintln!("watchdog: case stuck for more than {limit_s}s: {}", g.0);
-                std::process::exit(3);
             }
         });
     }
     pub fn set(case: impl FnOnce() -> String) {
         if let Some(m) = CUR.get() {
-            let mut g = m.lock().unwrap();
-            g.0 = case();
-            g.1 = Instant::now();
+            m.lock().unwrap().0 = case();
+            PROGRESS.store(true, Ordering::Relaxed);
         }
     }
     /// Progress inside the current case (e.g. the next input of the same grammar): restarts the clock only.
     pub fn touch() {
-        if let Some(m) = CUR.get() {
-            m.lock().unwrap().1 = Instant::now();
-        }
+        PROGRESS.store(true, Ordering::Relaxed);
     }
     pub fn clear() {
         if let Some(m) = CUR.get() {
